@@ -16,6 +16,14 @@ def tagged(n, rng, lo, hi, r):
     return [[((i * 1009 + j * 13 + r * 7919) % (hi - lo + 1)) + lo if rng.random() < 0.8 else rng.randint(lo, hi) for j in range(256)] for i in range(n)]
 
 
+def plant(vec, rng, vals):
+    """overwrite a few random positions of every component with the given boundary values (exact 0, +-1, extremes)"""
+    for comp in vec:
+        for v in vals:
+            comp[rng.randrange(256)] = v
+    return vec
+
+
 def gen(tier, rng):
     out = []
     reps = 2 if tier == "quick" else 40
@@ -30,6 +38,9 @@ def gen(tier, rng):
             T = ["in_domain"]
             out.append(Case("l_reduce", lv, [flat(big(L))], T)); out.append(Case("k_reduce", lv, [flat(big(K))], T))
             out.append(Case("k_caddq", lv, [flat(small(K))], T))
+            out.append(Case("k_caddq", lv, [flat(plant(small(K), rng, [0, 0, 1, -1, Q - 1, -(Q - 1)]))], T + ["boundary-values"]))
+            out.append(Case("k_reduce", lv, [flat(plant(big(K), rng, [0, 1, -1, Q, -Q, 4190208, 4190209, -4190208, -4190209]))], T + ["boundary-values"]))
+            out.append(Case("l_reduce", lv, [flat(plant(big(L), rng, [0, 1, -1, Q, -Q, 4190208, 4190209, -4190208, -4190209]))], T + ["boundary-values"]))
             out.append(Case("l_add", lv, [flat(big(L)), flat(big(L))], T)); out.append(Case("k_add", lv, [flat(big(K)), flat(big(K))], T))
             out.append(Case("k_sub", lv, [flat(big(K)), flat(big(K))], T))
             out.append(Case("k_shiftl", lv, [flat(tagged(K, rng, 0, 1023, r))], T))
@@ -53,6 +64,9 @@ def gen(tier, rng):
             dirty = tagged(K, rng, -9, 9, r)
             out.append(Case("k_power2round", lv, [flat(std(K)), flat(dirty)], T))
             out.append(Case("k_decompose", lv, [flat(std(K)), flat(dirty)], T))
+            bvals = [0, 0, 1, Q - 1, p.g2, p.g2 + 1, Q - 1 - p.g2, Q - p.g2, 2 * p.g2, 2 * p.g2 - 1]
+            out.append(Case("k_decompose", lv, [flat(plant(std(K), rng, bvals)), flat(dirty)], T + ["boundary-values"]))
+            out.append(Case("k_power2round", lv, [flat(plant(std(K), rng, [0, 0, 1, 4095, 4096, 4097, 8191, 8192, Q - 1])), flat(dirty)], T + ["boundary-values"]))
             out.append(Case("k_make_hint", lv, [flat(tagged(K, rng, -2 * p.g2 + 1, 2 * p.g2 - 1, r)), flat(tagged(K, rng, 0, p.m - 1, r))], T))
             out.append(Case("k_use_hint", lv, [flat(std(K)), flat(tagged(K, rng, 0, 1, r))], T))
             # realistic (sparse) hint vectors, incl. components without any hint and the all-zero vector
@@ -70,6 +84,10 @@ def gen(tier, rng):
                 out.append(Case("k_use_hint", lv, [flat(std(K)), flat(hv)], T + ["hints-" + kind]))
             rbuf = bytes(rng.randrange(256) for _ in range(K * p.polyw1 + 5))
             out.append(Case("k_pack_w1", lv, [rbuf, flat(tagged(K, rng, 0, p.m - 1, r))], T))
+            # the signer packs w1 into the (much longer) signature buffer: over-long dirty buffers of several sizes
+            for extra_len in (K, 64, 2500, 4627 - K * p.polyw1):
+                rb = bytes(rng.randrange(256) for _ in range(K * p.polyw1 + extra_len))
+                out.append(Case("k_pack_w1", lv, [rb, flat(tagged(K, rng, 0, p.m - 1, r))], T + ["over-long-buffer"]))
             seed = bytes(rng.randrange(256) for _ in range(64))
             nonce = rng.choice([0, 1, 255, 256, 1000])
             out.append(Case("l_uniform_eta", lv, [seed, nonce], T)); out.append(Case("k_uniform_eta", lv, [seed, nonce], T))
